@@ -8,6 +8,12 @@ META = {
         "note": "Trusted: Lean kernel (axioms propext, Classical.choice, Quot.sound only), the hand-written model's tie to the code is differential (bounded by generator coverage reported in evidence), harness VM in place of ref-fvm, signature/hash/extra-call results as environment inputs. Completeness direction of acceptance (conditions => accept) is not yet a theorem.",
         "technique": "Lean 4 invariant/decision-logic proofs + differential correspondence of model and real actor",
     },
+    "C18": {
+        "text": "Lean 4 theorems over an abstract EVM machine that follows the interpreter branch by branch and is instantiated with tables regenerated from the Rust source on every run (256-entry opcode table with macro kind / pops / pushes / push discipline, stack.rs limits and comparisons, get_memory_region guard sequence, Bytecode::new loop constants, read-only guards, send flags, flush): run_total and table_covers_all_bytes (no stuck state, every byte dispatches), stack_bound (length <= 1024 invariant of every step: generic lemma per macro arm + kernel-decided check that all 256 entries use a safe discipline and the specified arity), pop_never_underflows_unsafely and dup/swap index ranges, memory_guard (none for size 0; error iff size, offset or sum exceed u32::MAX; 32-aligned growth), jumpdest_analysis (bitmap = JUMPDEST at an instruction boundary of the inductive decoding, never push data) and jump_only_to_jumpdest, readonly_no_effects (handlers and step), flush_refuses_readonly, readonly_sticky (induction on call depth). Tied to the code by the translator and by differential runs on the real EVM actor in the harness VM: exhaustive 256 x 21 opcode x stack-height matrix, jump and memory-guard cases, arbitrary byte strings as init code / runtime code / calldata with jumpdest probing, read-only call chains with an independent state/event/balance oracle.",
+        "design_ref": "DESIGN.md §7 C18",
+        "note": "Trusted: Lean kernel (propext, Classical.choice, Quot.sound only), the regex translator, harness VM in place of ref-fvm (incl. its read-only propagation and missing gas), instruction result values and nested-call results as environment answers. The theorem that no step of a table entry can hit the model's `panic`/`arityMismatch` classes is given at table level (table_safe) only; the all-opcode read-only invariant is proved per guarded handler, not yet as one run-level invariant.",
+        "technique": "Lean 4 invariant proofs + kernel-decided table checks over regenerated tables + differential correspondence of model and real EVM actor",
+    },
 }
 
 ALL = ["C%02d" % i for i in range(1, 21)]
